@@ -43,6 +43,8 @@ pub struct World {
     pub owners: usize,
     pub owner_base: usize,
     pub leaked: usize,
+    /// memory handed out as `&'static [u8]`; released after the last handle of the script is gone
+    pub statics: Vec<*mut [u8]>,
 }
 
 pub enum Out {
@@ -82,7 +84,7 @@ fn blk(addr: usize, cap0: bool) -> String {
 
 impl World {
     pub fn new() -> World {
-        World { hs: Vec::with_capacity(64), owners: 0, owner_base: 0, leaked: 0 }
+        World { hs: Vec::with_capacity(64), owners: 0, owner_base: 0, leaked: 0, statics: Vec::new() }
     }
 
     fn b(&self, i: usize) -> Option<&Bytes> {
@@ -104,7 +106,16 @@ impl World {
                     b.is_unique() as u8,
                     contents(b)
                 ),
-                Some(H::M(m)) => println!("h {} M {} {} {} - {}", i, blk(m.as_ptr() as usize, m.capacity() == 0), m.len(), m.capacity(), contents(m)),
+                // a zero-capacity BytesMut still has an address when it was split off an allocation (C07: split_off / split_to
+                // keep the address guarantee for empty results); a fresh one points nowhere
+                Some(H::M(m)) => println!(
+                    "h {} M {} {} {} - {}",
+                    i,
+                    blk(m.as_ptr() as usize, m.capacity() == 0 && ledger::find_block(m.as_ptr() as usize).is_none()),
+                    m.len(),
+                    m.capacity(),
+                    contents(m)
+                ),
                 Some(H::V(v)) => println!("h {} V {} {} {} - {}", i, blk(v.as_ptr() as usize, v.capacity() == 0), v.len(), v.capacity(), contents(v)),
             }
         }
@@ -136,7 +147,9 @@ impl World {
         }
         let res: Result<Out, ()> = match name {
             "fromstatic" => {
-                let s: &'static [u8] = Box::leak(bytes_arg?.into_boxed_slice());
+                let raw: *mut [u8] = Box::into_raw(bytes_arg?.into_boxed_slice());
+                self.statics.push(raw);
+                let s: &'static [u8] = unsafe { &*raw };
                 if !s.is_empty() {
                     self.leaked += 1;
                 }
@@ -480,6 +493,13 @@ pub fn end_script(w: &mut World, rng: &mut Rng, a1_before: usize) {
         run_op(w, &format!("drop {}", i));
     }
     println!("balance align1_live_delta={} violations={}", ledger::A1_TRACKED_LIVE.load(Ordering::SeqCst) as i64 - a1_before as i64, ledger::VIOLATIONS.load(Ordering::SeqCst));
+    // every handle is gone: the "static" memory of this script can go too (keeps the ledger's block table small).
+    // Only when nothing is left alive — a leaked handle (a defect under test) may still point into it.
+    if w.live().is_empty() {
+        for p in w.statics.drain(..) {
+            unsafe { drop(Box::from_raw(p)) };
+        }
+    }
 }
 
 // ------------------------------------------------------------------------------------------
